@@ -245,3 +245,132 @@ package cache
 //@ func (*RepoCache).Close
 //@   trusted
 //@   modifies repoWrites
+
+// ---- query evaluation (C12) --------------------------------------------------------------------------------
+// A Filter is a deterministic predicate on an excerpt (excerpts are not modified while a query holds the
+// sub-cache's read lock): values of this type are treated as pure functions of their arguments.
+//@ func Filter
+//@   purefn
+
+// any-of within a group ...
+//@ func (*Matcher).orMatch
+//@   props C12
+//@   nopanic
+//@   requires [filters-set] forall k int :: { filters[k] } 0 <= k && k < len(filters) ==> filters[k] != nil
+//@   modifies nothing
+//@   ensures [any-of] result == (len(filters) == 0 || (exists k int :: { filters[k] } 0 <= k && k < len(filters) && filters[k](excerpt, resolvers)))
+//@   loop 1
+//@     invariant match == (exists k int :: { filters[k] } 0 <= k && k <= rangeindex && filters[k](excerpt, resolvers))
+// ... all-of within a group ...
+//@ func (*Matcher).andMatch
+//@   props C12
+//@   nopanic
+//@   requires [filters-set] forall k int :: { filters[k] } 0 <= k && k < len(filters) ==> filters[k] != nil
+//@   modifies nothing
+//@   ensures [all-of] result == (forall k int :: { filters[k] } 0 <= k && k < len(filters) ==> filters[k](excerpt, resolvers))
+//@   loop 1
+//@     invariant match == (forall k int :: { filters[k] } 0 <= k && k <= rangeindex ==> filters[k](excerpt, resolvers))
+// ... and across groups: status, author, metadata, participant and actor are any-of groups; labels, the
+// "no" filters and titles are all-of groups; a bug matches when every group does.
+//@ func (*Matcher).Match
+//@   props C12
+//@   nopanic
+//@   requires f != nil
+//@   requires [filters-set] (forall k int :: { f.Status[k] } 0 <= k && k < len(f.Status) ==> f.Status[k] != nil) && (forall k int :: { f.Author[k] } 0 <= k && k < len(f.Author) ==> f.Author[k] != nil) && (forall k int :: { f.Metadata[k] } 0 <= k && k < len(f.Metadata) ==> f.Metadata[k] != nil) && (forall k int :: { f.Actor[k] } 0 <= k && k < len(f.Actor) ==> f.Actor[k] != nil) && (forall k int :: { f.Participant[k] } 0 <= k && k < len(f.Participant) ==> f.Participant[k] != nil) && (forall k int :: { f.Label[k] } 0 <= k && k < len(f.Label) ==> f.Label[k] != nil) && (forall k int :: { f.Title[k] } 0 <= k && k < len(f.Title) ==> f.Title[k] != nil) && (forall k int :: { f.NoFilters[k] } 0 <= k && k < len(f.NoFilters) ==> f.NoFilters[k] != nil)
+//@   modifies nothing
+//@   ensures [groups] result == ((len(f.Status) == 0 || (exists k int :: { f.Status[k] } 0 <= k && k < len(f.Status) && f.Status[k](excerpt, resolvers))) && (len(f.Author) == 0 || (exists k int :: { f.Author[k] } 0 <= k && k < len(f.Author) && f.Author[k](excerpt, resolvers))) && (len(f.Metadata) == 0 || (exists k int :: { f.Metadata[k] } 0 <= k && k < len(f.Metadata) && f.Metadata[k](excerpt, resolvers))) && (len(f.Participant) == 0 || (exists k int :: { f.Participant[k] } 0 <= k && k < len(f.Participant) && f.Participant[k](excerpt, resolvers))) && (len(f.Actor) == 0 || (exists k int :: { f.Actor[k] } 0 <= k && k < len(f.Actor) && f.Actor[k](excerpt, resolvers))) && (forall k int :: { f.Label[k] } 0 <= k && k < len(f.Label) ==> f.Label[k](excerpt, resolvers)) && (forall k int :: { f.NoFilters[k] } 0 <= k && k < len(f.NoFilters) ==> f.NoFilters[k](excerpt, resolvers)) && (forall k int :: { f.Title[k] } 0 <= k && k < len(f.Title) ==> f.Title[k](excerpt, resolvers)))
+
+// A filter constructor returns a closure over its argument only: equal arguments give interchangeable filters.
+//@ func StatusFilter
+//@ func AuthorFilter
+//@ func MetadataFilter
+//@ func ActorFilter
+//@ func ParticipantFilter
+//@ func LabelFilter
+//@ func TitleFilter
+//@ func NoLabelFilter
+//@   trusted
+//@   purefn
+
+// compileMatcher puts one filter per query value into the group of the same name, built by that group's
+// constructor, in order; "no:label" becomes the only possible "no" filter.
+//@ func compileMatcher
+//@   props C12
+//@   nopanic
+//@   ensures [fresh] result != nil && fresh(result)
+//@   ensures [status] len(result.Status) == len(filters.Status) && (forall k int :: { result.Status[k] } 0 <= k && k < len(filters.Status) ==> result.Status[k] == StatusFilter(filters.Status[k]))
+//@   ensures [author] len(result.Author) == len(filters.Author) && (forall k int :: { result.Author[k] } 0 <= k && k < len(filters.Author) ==> result.Author[k] == AuthorFilter(filters.Author[k]))
+//@   ensures [metadata] len(result.Metadata) == len(filters.Metadata) && (forall k int :: { result.Metadata[k] } 0 <= k && k < len(filters.Metadata) ==> result.Metadata[k] == MetadataFilter(filters.Metadata[k]))
+//@   ensures [actor] len(result.Actor) == len(filters.Actor) && (forall k int :: { result.Actor[k] } 0 <= k && k < len(filters.Actor) ==> result.Actor[k] == ActorFilter(filters.Actor[k]))
+//@   ensures [participant] len(result.Participant) == len(filters.Participant) && (forall k int :: { result.Participant[k] } 0 <= k && k < len(filters.Participant) ==> result.Participant[k] == ParticipantFilter(filters.Participant[k]))
+//@   ensures [label] len(result.Label) == len(filters.Label) && (forall k int :: { result.Label[k] } 0 <= k && k < len(filters.Label) ==> result.Label[k] == LabelFilter(filters.Label[k]))
+//@   ensures [title] len(result.Title) == len(filters.Title) && (forall k int :: { result.Title[k] } 0 <= k && k < len(filters.Title) ==> result.Title[k] == TitleFilter(filters.Title[k]))
+//@   ensures [no-label] len(result.NoFilters) == (filters.NoLabel ? 1 : 0) && (filters.NoLabel ==> result.NoFilters[0] == NoLabelFilter())
+//@   loop 1
+//@     invariant result != nil && fresh(result) && (result.Status == nil || fresh(result.Status)) && len(result.Status) == rangeindex + 1
+//@     invariant forall k int :: { result.Status[k] } 0 <= k && k <= rangeindex ==> result.Status[k] == StatusFilter(filters.Status[k])
+//@   loop 2
+//@     invariant [separate] (result.Status == nil || fresh(result.Status)) && (result.Author == nil || fresh(result.Author)) && (sarr(result.Status) != sarr(result.Author) || sarr(result.Status) == 0)
+//@     invariant result != nil && fresh(result) && (result.Author == nil || fresh(result.Author)) && len(result.Author) == rangeindex + 1
+//@     invariant forall k int :: { result.Author[k] } 0 <= k && k <= rangeindex ==> result.Author[k] == AuthorFilter(filters.Author[k])
+//@     invariant len(result.Status) == len(filters.Status) && (forall k int :: { result.Status[k] } 0 <= k && k < len(filters.Status) ==> result.Status[k] == StatusFilter(filters.Status[k]))
+//@   loop 3
+//@     invariant [separate] (result.Status == nil || fresh(result.Status)) && (result.Author == nil || fresh(result.Author)) && (result.Metadata == nil || fresh(result.Metadata)) && (sarr(result.Status) != sarr(result.Author) || sarr(result.Status) == 0) && (sarr(result.Status) != sarr(result.Metadata) || sarr(result.Status) == 0) && (sarr(result.Author) != sarr(result.Metadata) || sarr(result.Author) == 0)
+//@     invariant result != nil && fresh(result) && (result.Metadata == nil || fresh(result.Metadata)) && len(result.Metadata) == rangeindex + 1
+//@     invariant forall k int :: { result.Metadata[k] } 0 <= k && k <= rangeindex ==> result.Metadata[k] == MetadataFilter(filters.Metadata[k])
+//@     invariant len(result.Status) == len(filters.Status) && (forall k int :: { result.Status[k] } 0 <= k && k < len(filters.Status) ==> result.Status[k] == StatusFilter(filters.Status[k]))
+//@     invariant len(result.Author) == len(filters.Author) && (forall k int :: { result.Author[k] } 0 <= k && k < len(filters.Author) ==> result.Author[k] == AuthorFilter(filters.Author[k]))
+//@   loop 4
+//@     invariant [separate] (result.Status == nil || fresh(result.Status)) && (result.Author == nil || fresh(result.Author)) && (result.Metadata == nil || fresh(result.Metadata)) && (result.Actor == nil || fresh(result.Actor)) && (sarr(result.Status) != sarr(result.Author) || sarr(result.Status) == 0) && (sarr(result.Status) != sarr(result.Metadata) || sarr(result.Status) == 0) && (sarr(result.Status) != sarr(result.Actor) || sarr(result.Status) == 0) && (sarr(result.Author) != sarr(result.Metadata) || sarr(result.Author) == 0) && (sarr(result.Author) != sarr(result.Actor) || sarr(result.Author) == 0) && (sarr(result.Metadata) != sarr(result.Actor) || sarr(result.Metadata) == 0)
+//@     invariant result != nil && fresh(result) && (result.Actor == nil || fresh(result.Actor)) && len(result.Actor) == rangeindex + 1
+//@     invariant forall k int :: { result.Actor[k] } 0 <= k && k <= rangeindex ==> result.Actor[k] == ActorFilter(filters.Actor[k])
+//@     invariant len(result.Status) == len(filters.Status) && (forall k int :: { result.Status[k] } 0 <= k && k < len(filters.Status) ==> result.Status[k] == StatusFilter(filters.Status[k]))
+//@     invariant len(result.Author) == len(filters.Author) && (forall k int :: { result.Author[k] } 0 <= k && k < len(filters.Author) ==> result.Author[k] == AuthorFilter(filters.Author[k]))
+//@     invariant len(result.Metadata) == len(filters.Metadata) && (forall k int :: { result.Metadata[k] } 0 <= k && k < len(filters.Metadata) ==> result.Metadata[k] == MetadataFilter(filters.Metadata[k]))
+//@   loop 5
+//@     invariant [separate] (result.Status == nil || fresh(result.Status)) && (result.Author == nil || fresh(result.Author)) && (result.Metadata == nil || fresh(result.Metadata)) && (result.Actor == nil || fresh(result.Actor)) && (result.Participant == nil || fresh(result.Participant)) && (sarr(result.Status) != sarr(result.Author) || sarr(result.Status) == 0) && (sarr(result.Status) != sarr(result.Metadata) || sarr(result.Status) == 0) && (sarr(result.Status) != sarr(result.Actor) || sarr(result.Status) == 0) && (sarr(result.Status) != sarr(result.Participant) || sarr(result.Status) == 0) && (sarr(result.Author) != sarr(result.Metadata) || sarr(result.Author) == 0) && (sarr(result.Author) != sarr(result.Actor) || sarr(result.Author) == 0) && (sarr(result.Author) != sarr(result.Participant) || sarr(result.Author) == 0) && (sarr(result.Metadata) != sarr(result.Actor) || sarr(result.Metadata) == 0) && (sarr(result.Metadata) != sarr(result.Participant) || sarr(result.Metadata) == 0) && (sarr(result.Actor) != sarr(result.Participant) || sarr(result.Actor) == 0)
+//@     invariant result != nil && fresh(result) && (result.Participant == nil || fresh(result.Participant)) && len(result.Participant) == rangeindex + 1
+//@     invariant forall k int :: { result.Participant[k] } 0 <= k && k <= rangeindex ==> result.Participant[k] == ParticipantFilter(filters.Participant[k])
+//@     invariant len(result.Status) == len(filters.Status) && (forall k int :: { result.Status[k] } 0 <= k && k < len(filters.Status) ==> result.Status[k] == StatusFilter(filters.Status[k]))
+//@     invariant len(result.Author) == len(filters.Author) && (forall k int :: { result.Author[k] } 0 <= k && k < len(filters.Author) ==> result.Author[k] == AuthorFilter(filters.Author[k]))
+//@     invariant len(result.Metadata) == len(filters.Metadata) && (forall k int :: { result.Metadata[k] } 0 <= k && k < len(filters.Metadata) ==> result.Metadata[k] == MetadataFilter(filters.Metadata[k]))
+//@     invariant len(result.Actor) == len(filters.Actor) && (forall k int :: { result.Actor[k] } 0 <= k && k < len(filters.Actor) ==> result.Actor[k] == ActorFilter(filters.Actor[k]))
+//@   loop 6
+//@     invariant [separate] (result.Status == nil || fresh(result.Status)) && (result.Author == nil || fresh(result.Author)) && (result.Metadata == nil || fresh(result.Metadata)) && (result.Actor == nil || fresh(result.Actor)) && (result.Participant == nil || fresh(result.Participant)) && (result.Label == nil || fresh(result.Label)) && (sarr(result.Status) != sarr(result.Author) || sarr(result.Status) == 0) && (sarr(result.Status) != sarr(result.Metadata) || sarr(result.Status) == 0) && (sarr(result.Status) != sarr(result.Actor) || sarr(result.Status) == 0) && (sarr(result.Status) != sarr(result.Participant) || sarr(result.Status) == 0) && (sarr(result.Status) != sarr(result.Label) || sarr(result.Status) == 0) && (sarr(result.Author) != sarr(result.Metadata) || sarr(result.Author) == 0) && (sarr(result.Author) != sarr(result.Actor) || sarr(result.Author) == 0) && (sarr(result.Author) != sarr(result.Participant) || sarr(result.Author) == 0) && (sarr(result.Author) != sarr(result.Label) || sarr(result.Author) == 0) && (sarr(result.Metadata) != sarr(result.Actor) || sarr(result.Metadata) == 0) && (sarr(result.Metadata) != sarr(result.Participant) || sarr(result.Metadata) == 0) && (sarr(result.Metadata) != sarr(result.Label) || sarr(result.Metadata) == 0) && (sarr(result.Actor) != sarr(result.Participant) || sarr(result.Actor) == 0) && (sarr(result.Actor) != sarr(result.Label) || sarr(result.Actor) == 0) && (sarr(result.Participant) != sarr(result.Label) || sarr(result.Participant) == 0)
+//@     invariant result != nil && fresh(result) && (result.Label == nil || fresh(result.Label)) && len(result.Label) == rangeindex + 1
+//@     invariant forall k int :: { result.Label[k] } 0 <= k && k <= rangeindex ==> result.Label[k] == LabelFilter(filters.Label[k])
+//@     invariant len(result.Status) == len(filters.Status) && (forall k int :: { result.Status[k] } 0 <= k && k < len(filters.Status) ==> result.Status[k] == StatusFilter(filters.Status[k]))
+//@     invariant len(result.Author) == len(filters.Author) && (forall k int :: { result.Author[k] } 0 <= k && k < len(filters.Author) ==> result.Author[k] == AuthorFilter(filters.Author[k]))
+//@     invariant len(result.Metadata) == len(filters.Metadata) && (forall k int :: { result.Metadata[k] } 0 <= k && k < len(filters.Metadata) ==> result.Metadata[k] == MetadataFilter(filters.Metadata[k]))
+//@     invariant len(result.Actor) == len(filters.Actor) && (forall k int :: { result.Actor[k] } 0 <= k && k < len(filters.Actor) ==> result.Actor[k] == ActorFilter(filters.Actor[k]))
+//@     invariant len(result.Participant) == len(filters.Participant) && (forall k int :: { result.Participant[k] } 0 <= k && k < len(filters.Participant) ==> result.Participant[k] == ParticipantFilter(filters.Participant[k]))
+//@   loop 7
+//@     invariant [separate] (result.Status == nil || fresh(result.Status)) && (result.Author == nil || fresh(result.Author)) && (result.Metadata == nil || fresh(result.Metadata)) && (result.Actor == nil || fresh(result.Actor)) && (result.Participant == nil || fresh(result.Participant)) && (result.Label == nil || fresh(result.Label)) && (result.Title == nil || fresh(result.Title)) && (sarr(result.Status) != sarr(result.Author) || sarr(result.Status) == 0) && (sarr(result.Status) != sarr(result.Metadata) || sarr(result.Status) == 0) && (sarr(result.Status) != sarr(result.Actor) || sarr(result.Status) == 0) && (sarr(result.Status) != sarr(result.Participant) || sarr(result.Status) == 0) && (sarr(result.Status) != sarr(result.Label) || sarr(result.Status) == 0) && (sarr(result.Status) != sarr(result.Title) || sarr(result.Status) == 0) && (sarr(result.Author) != sarr(result.Metadata) || sarr(result.Author) == 0) && (sarr(result.Author) != sarr(result.Actor) || sarr(result.Author) == 0) && (sarr(result.Author) != sarr(result.Participant) || sarr(result.Author) == 0) && (sarr(result.Author) != sarr(result.Label) || sarr(result.Author) == 0) && (sarr(result.Author) != sarr(result.Title) || sarr(result.Author) == 0) && (sarr(result.Metadata) != sarr(result.Actor) || sarr(result.Metadata) == 0) && (sarr(result.Metadata) != sarr(result.Participant) || sarr(result.Metadata) == 0) && (sarr(result.Metadata) != sarr(result.Label) || sarr(result.Metadata) == 0) && (sarr(result.Metadata) != sarr(result.Title) || sarr(result.Metadata) == 0) && (sarr(result.Actor) != sarr(result.Participant) || sarr(result.Actor) == 0) && (sarr(result.Actor) != sarr(result.Label) || sarr(result.Actor) == 0) && (sarr(result.Actor) != sarr(result.Title) || sarr(result.Actor) == 0) && (sarr(result.Participant) != sarr(result.Label) || sarr(result.Participant) == 0) && (sarr(result.Participant) != sarr(result.Title) || sarr(result.Participant) == 0) && (sarr(result.Label) != sarr(result.Title) || sarr(result.Label) == 0)
+//@     invariant result != nil && fresh(result) && (result.Title == nil || fresh(result.Title)) && len(result.Title) == rangeindex + 1
+//@     invariant forall k int :: { result.Title[k] } 0 <= k && k <= rangeindex ==> result.Title[k] == TitleFilter(filters.Title[k])
+//@     invariant len(result.Status) == len(filters.Status) && (forall k int :: { result.Status[k] } 0 <= k && k < len(filters.Status) ==> result.Status[k] == StatusFilter(filters.Status[k]))
+//@     invariant len(result.Author) == len(filters.Author) && (forall k int :: { result.Author[k] } 0 <= k && k < len(filters.Author) ==> result.Author[k] == AuthorFilter(filters.Author[k]))
+//@     invariant len(result.Metadata) == len(filters.Metadata) && (forall k int :: { result.Metadata[k] } 0 <= k && k < len(filters.Metadata) ==> result.Metadata[k] == MetadataFilter(filters.Metadata[k]))
+//@     invariant len(result.Actor) == len(filters.Actor) && (forall k int :: { result.Actor[k] } 0 <= k && k < len(filters.Actor) ==> result.Actor[k] == ActorFilter(filters.Actor[k]))
+//@     invariant len(result.Participant) == len(filters.Participant) && (forall k int :: { result.Participant[k] } 0 <= k && k < len(filters.Participant) ==> result.Participant[k] == ParticipantFilter(filters.Participant[k]))
+//@     invariant len(result.Label) == len(filters.Label) && (forall k int :: { result.Label[k] } 0 <= k && k < len(filters.Label) ==> result.Label[k] == LabelFilter(filters.Label[k]))
+
+// What the simple filters test (closures verified against their meaning).
+//@ func StatusFilter$1
+//@   props C12
+//@   modifies nothing
+//@   ensures result == (excerpt.Status == status)
+//@ func MetadataFilter$1
+//@   props C12
+//@   modifies nothing
+//@   ensures result == ((pair.Key in excerpt.CreateMetadata) && excerpt.CreateMetadata[pair.Key] == pair.Value)
+//@ func LabelFilter$1
+//@   props C12
+//@   modifies nothing
+//@   ensures result == (exists k int :: { excerpt.Labels[k] } 0 <= k && k < len(excerpt.Labels) && string(excerpt.Labels[k]) == label)
+//@   loop 1
+//@     invariant forall k int :: { excerpt.Labels[k] } 0 <= k && k <= rangeindex ==> string(excerpt.Labels[k]) != label
+//@ func NoLabelFilter$1
+//@   props C12
+//@   modifies nothing
+//@   ensures result == (len(excerpt.Labels) == 0)
